@@ -188,7 +188,10 @@ def DEGREES(
     https://support.office.com/en-us/article/
         degrees-function-4d6ec4db-e694-4b94-ace0-1cc3f61f9ba1
     """
-    return np.degrees(float(angle))
+    degrees = np.degrees(float(angle))
+    if np.isinf(degrees):
+        raise xlerrors.NumExcelError(f'{angle} radians is too large')
+    return degrees
 
 
 @xl.register()
@@ -573,7 +576,8 @@ def SQRTPI(
     if number < 0:
         raise xlerrors.NumExcelError(f'number {number} must be non-negative')
 
-    return math.sqrt(number * math.pi)
+    # (the product overflows for numbers whose root is well in range)
+    return math.sqrt(float(number)) * math.sqrt(math.pi)
 
 
 @xl.register()
